@@ -4,7 +4,7 @@ import os
 
 import sympy as sp
 
-from vcheck import symx
+from vcheck import cfront, symx
 from vcheck.core import PyRepo, AnalysisError, call_name, dotted_name, kwarg, norm
 
 MANIFEST = dict(
@@ -37,11 +37,17 @@ MANIFEST = dict(
          "with the stored regions under the known extents.  So every bin edge, the last one included, must be the definition at its own position, and the "
          "merged reverse indices must be the engine's layout for one bin fewer (one element fewer, offsets REV[k]-1, last offset the old end REV[nbin]-1, "
          "index area unchanged one place earlier).  Finally the options are followed by data dependence from histogram() to Binner.dohist() and on to the "
-         "methods of Binner: a parameter fed a plain copy of an option must be fed the option of its own name, and no public option is cut off.",
+         "methods of Binner: a parameter fed a plain copy of an option must be fed the option of its own name, and no public option is cut off.  "
+         "The bin number inside the histogram engine (the compiled routine on clang's AST, locals and file-local helpers substituted through reaching "
+         "definitions; the Python fallback likewise) is read off as a floating-point expression tree over datum, minimum and bin size at every store into "
+         "the array of counts: it must be the truncation of the single double-precision quotient (datum - min) / binsize, the one form for which IEEE-754 "
+         "guarantees that the sorted position r handed over by equal-occupancy binning is counted in bin floor(r / nperbin) for every r and nperbin (a "
+         "product with a reciprocal, a difference of quotients, single precision or a rounding conversion is reported).",
     note="Not decided: numerical equality. Trusted: numpy "
          "reductions, slice-view aliasing and copy-on-overlap of numpy slice assignment, numpy.delete / append / concatenate, sympy normaliser, the histogram "
          "engine's reverse-index layout (offsets 0..nbin, then the members bin by bin, at least one datum); in the direct "
-         "form numpy.bincount / cumsum / nonzero and that the bin number int(r/nperbin) does not decrease with the rank r (bins hold consecutive ranks).",
+         "form numpy.bincount / cumsum / nonzero and that the bin number int(r/nperbin) does not decrease with the rank r (bins hold consecutive ranks); "
+         "IEEE-754 correctly rounded double division in C and numpy (the bin-number rule compares floating-point structure, it computes nothing).",
     technique="static analysis: abstract interpretation over a symbolic term domain (reductions as uninterpreted functionals, arrays as guarded stores), "
               "special-case consistency by term rewriting, path conditions decided per scenario",
 )
@@ -1747,6 +1753,7 @@ def run(chk):
     edges(chk, fi, runs)
     keys(chk, fi, runs)
     equal_occupancy(chk, repo)
+    engine_bin_number(chk, repo)
     option_plumbing(chk, repo)
 
 
@@ -2664,6 +2671,587 @@ def equal_occupancy(chk, repo):
             if not ok:
                 msg = "hist=%r rev=%r nperbin=%r" % (h, v, npb)
     chk.ob("R14.5", "_hist_by_num::results-stored", _verdict(res), where, "hist / rev / nperbin are stored, before a merge reads them (%s)" % (msg or "as found"))
+
+
+# ---------------------------------------------------------------------------------------------------------------------------------
+# the bin number inside the histogram engine.  Equal-occupancy binning hands the engine the sorted POSITIONS 0..n-1 (exact in float64),
+# the minimum 0 and the bin size nperbin, and needs position r in bin floor(r / nperbin) for EVERY r and nperbin.  IEEE-754 gives
+# that guarantee for exactly one way of computing the bin number: the truncation of the single, correctly rounded quotient
+# (datum - min) / binsize in double precision (an integer quotient is exact; a non-integer one is more than half an ulp away from the
+# next integer, so rounding never crosses it).  No other expression over datum, min and binsize has it: a product with a rounded
+# reciprocal, a difference of two quotients, a detour through single precision or a rounding conversion can all land one bin off at a
+# multiple of the bin size.  The rule therefore reads the bin number off the engine as an expression TREE over (datum, min, binsize) with
+# locals and file-local helpers substituted by reaching definitions, and compares floating-point structure, not real-number algebra.
+# ---------------------------------------------------------------------------------------------------------------------------------
+_C_TU = "chist"
+_C_FILE = "esutil/stat/chist_pywrap.c"
+_C_PARSERS = {"PyArg_ParseTuple": 2, "PyArg_ParseTupleAndKeywords": 4}      # argument parser -> index of its first output argument
+_R_DATA, _R_MIN, _R_SORT, _R_BSIZE, _R_HIST, _R_REV = range(6)             # places of chist(data, min, sort index, binsize, hist, rev)
+_TRUNCATING = ("floor", "trunc")                                           # equal to the C conversion for the bins that are counted (>= 0)
+_ROUNDING = ("lround", "llround", "lrint", "llrint", "round", "rint", "nearbyint", "ceil", "lroundf", "roundf", "ceilf", "rintf")
+_ARITH = ("add", "sub", "mul", "div")
+_C_PASS = ("ParenExpr", "ConstantExpr", "ExprWithCleanups", "MaterializeTemporaryExpr", "CXXBindTemporaryExpr")
+_C_CASTS = ("ImplicitCastExpr", "CStyleCastExpr", "CXXStaticCastExpr", "CXXFunctionalCastExpr", "CXXReinterpretCastExpr", "CXXConstCastExpr")
+
+
+def _ctype(n):
+    t = (n.get("type") or {}).get("qualType", "")
+    return " ".join(w for w in t.split() if w not in ("const", "volatile", "register"))
+
+
+def _ckids(n):
+    return [c for c in (n.get("inner") or []) if isinstance(c, dict) and c.get("kind")]
+
+
+def _phi(trees):
+    flat = []
+    for t in trees:
+        for a in (t[1:] if t[0] == "phi" else (t,)):
+            if a not in flat:
+                flat.append(a)
+    return flat[0] if len(flat) == 1 else ("phi",) + tuple(sorted(flat, key=repr))
+
+
+def _alts(t):
+    return list(t[1:]) if t[0] == "phi" else [t]
+
+
+def _children(t):
+    for c in t[1:]:
+        if isinstance(c, tuple):
+            if c and isinstance(c[0], str):
+                yield c
+            else:
+                for d in c:
+                    if isinstance(d, tuple) and d and isinstance(d[0], str):
+                        yield d
+
+
+def _subtrees(t):
+    yield t
+    for c in _children(t):
+        yield from _subtrees(c)
+
+
+def _conversions(t):
+    """the outermost floating-point -> integer conversions in a tree"""
+    if t[0] == "f2i":
+        return [t]
+    return [s for c in _children(t) for s in _conversions(c)]
+
+
+def _roles(t):
+    return {s[1] for s in _subtrees(t) if s[0] == "arg"}
+
+
+class _CFunc:
+    """one C function: statement-level control-flow graph and the reaching definitions of its locals and parameters"""
+
+    def __init__(self, decl):
+        self.decl = decl
+        self.name = decl.get("name")
+        self.cfg = cfront.CCFG(decl)
+        self.params = cfront.params_of(decl)
+        self.locals = set(self.params) | {x["name"] for x in cfront.walk(cfront.body_of(decl)) if x.get("kind") == "VarDecl" and x.get("name")}
+        self.gen = {self.cfg.entry.id: {p: ("param",) for p in self.params}}
+        for n in self.cfg.nodes:
+            if isinstance(n.c, dict) and n.kind != "case":
+                d = self._defs(n.c)
+                if d:
+                    self.gen[n.id] = d
+        g = self.cfg.g
+        self.IN = {i: set() for i in g.nodes}
+        out = {i: set() for i in g.nodes}
+        work = list(g.nodes)
+        while work:
+            i = work.pop()
+            cur = set()
+            for p in g.predecessors(i):
+                cur |= out[p]
+            self.IN[i] = cur
+            mine = self.gen.get(i, {})
+            o = {(m, v) for (m, v) in cur if v not in mine} | {(i, v) for v in mine}
+            if o != out[i]:
+                out[i] = o
+                work.extend(g.successors(i))
+
+    def _defs(self, c):
+        d = {}
+        for x in cfront.walk(c):
+            k = x.get("kind")
+            if k == "DeclStmt":
+                before = {}
+                for v in _ckids(x):
+                    if v.get("kind") == "VarDecl" and v.get("name"):
+                        init = _ckids(v)
+                        d[v["name"]] = ("init", init[-1], dict(before)) if init else ("uninit",)
+                        before[v["name"]] = d[v["name"]]
+            elif k == "BinaryOperator" and x.get("opcode") == "=":
+                l = cfront.strip(x["inner"][0])
+                if l.get("kind") == "DeclRefExpr":
+                    d[cfront.render(l)] = ("init", x["inner"][1], {})
+            elif k == "CompoundAssignOperator" or (k == "UnaryOperator" and x.get("opcode") in ("++", "--")):
+                l = cfront.strip(x["inner"][0])
+                if l.get("kind") == "DeclRefExpr":
+                    d[cfront.render(l)] = ("update",)
+            elif k == "CallExpr":
+                name = cfront.callee_name(x)
+                for pos, a in enumerate(_ckids(x)[1:]):
+                    a = cfront.strip(a)
+                    if a.get("kind") == "UnaryOperator" and a.get("opcode") == "&":
+                        t = cfront.strip(a["inner"][0])
+                        if t.get("kind") == "DeclRefExpr":
+                            d[cfront.render(t)] = ("out", name, pos)
+        return d
+
+
+class _Ctx:
+    def __init__(self, fn, bind, stack):
+        self.fn, self.bind, self.stack = fn, bind, stack
+
+
+class _CEngine:
+    """expression trees of a C translation unit.  Leaves: ('arg', i) the i-th Python argument of the entry point, ('const', text),
+    ('sym', name), ('param', f, p), ('unk', why).  Inner nodes: (add|sub|mul|div|mod, type, a, b), ('neg', type, a), ('f2i' | 'i2f' | 'fcast',
+    type, a) the value-changing conversions, ('load', type, address), ('member', name, base), ('call', name, args), ('phi', alternatives...)
+    where several definitions reach."""
+
+    def __init__(self, decls):
+        self.decls = cfront.functions(decls)
+        self._fn = {}
+        self._memo = {}
+        self._keep = []
+        self.stores = []           # (address tree, index tree or None, line)
+
+    def fn(self, name):
+        if name not in self._fn:
+            self._fn[name] = _CFunc(self.decls[name])
+        return self._fn[name]
+
+    def entry(self):
+        """the function that parses the Python arguments"""
+        for name, d in self.decls.items():
+            for x in cfront.walk(cfront.body_of(d)):
+                if x.get("kind") == "CallExpr" and cfront.callee_name(x) in _C_PARSERS:
+                    return name, x
+        return None, None
+
+    # -- values ---------------------------------------------------------------------------------------------------------------
+    def var(self, name, ctx, nid, busy, before=None):
+        if before and name in before:
+            return self.payload(before[name], name, ctx, nid, busy)
+        defs = sorted(m for (m, v) in ctx.fn.IN[nid] if v == name)
+        if not defs:
+            return ("unk", "no definition of %s reaches" % name)
+        out = []
+        for m in defs:
+            key = (id(ctx), m, name)
+            if key in busy:
+                out.append(("unk", "%s depends on itself" % name))
+                continue
+            if key not in self._memo:
+                self._memo[key] = self.payload(ctx.fn.gen[m][name], name, ctx, m, busy | {key})
+            out.append(self._memo[key])
+        return _phi(out)
+
+    def payload(self, p, name, ctx, nid, busy):
+        if p[0] == "param":
+            return ctx.bind.get(name, ("param", ctx.fn.name, name))
+        if p[0] == "init":
+            return self.ev(p[1], ctx, nid, busy, p[2])
+        if p[0] == "out" and p[1] in _C_PARSERS and not ctx.stack:
+            return ("arg", p[2] - _C_PARSERS[p[1]])
+        return ("unk", "%s: %s" % (name, p[0]))
+
+    def ev(self, e, ctx, nid, busy=frozenset(), before=None):
+        k = e.get("kind")
+        kids = _ckids(e)
+        rec = lambda x: self.ev(x, ctx, nid, busy, before)
+        if k in _C_PASS and kids:
+            return rec(kids[0])
+        if k in _C_CASTS and kids:
+            t = rec(kids[-1])
+            ck = e.get("castKind")
+            if ck == "FloatingToIntegral":
+                return ("f2i", _ctype(e), t)
+            if ck == "IntegralToFloating":
+                return ("i2f", _ctype(e), t)
+            if ck == "FloatingCast":
+                return ("fcast", _ctype(e), t)
+            if ck in ("FloatingToBoolean", "IntegralToBoolean", "PointerToBoolean"):
+                return ("unk", ck)
+            return t
+        if k in ("IntegerLiteral", "FloatingLiteral"):
+            return ("const", str(e.get("value")))
+        if k == "DeclRefExpr":
+            rd = e.get("referencedDecl", {})
+            nm = rd.get("name", "?")
+            if rd.get("kind") in ("VarDecl", "ParmVarDecl") and nm in ctx.fn.locals:
+                return self.var(nm, ctx, nid, busy, before)
+            return ("sym", nm)
+        if k == "UnaryOperator" and kids:
+            op = e.get("opcode")
+            if op == "*":
+                return ("load", _ctype(e), rec(kids[0]))
+            if op == "-":
+                return ("neg", _ctype(e), rec(kids[0]))
+            if op == "+":
+                return rec(kids[0])
+            if op == "&":
+                return ("sym", "&" + cfront.render(kids[0]))
+            return ("unk", "operator " + str(op))
+        if k == "BinaryOperator" and len(kids) == 2:
+            op = e.get("opcode")
+            if op in ("=", ","):
+                return rec(kids[1])
+            names = {"+": "add", "-": "sub", "*": "mul", "/": "div", "%": "mod"}
+            if op in names:
+                return (names[op], _ctype(e), rec(kids[0]), rec(kids[1]))
+            return ("unk", "operator " + str(op))
+        if k == "ArraySubscriptExpr" and len(kids) == 2:
+            return ("load", _ctype(e), ("add", "ptr", rec(kids[0]), rec(kids[1])))
+        if k == "MemberExpr" and kids:
+            return ("member", e.get("name", "?"), rec(kids[0]))
+        if k == "ConditionalOperator" and len(kids) == 3:
+            return _phi([rec(kids[1]), rec(kids[2])])
+        if k == "CallExpr" and kids:
+            name = cfront.callee_name(e)
+            args = tuple(rec(a) for a in kids[1:])
+            if name in self.decls and name not in ctx.stack and name != ctx.fn.name and len(ctx.stack) < 6:
+                return self.returned(self.callee_ctx(name, args, ctx))
+            return ("call", name or cfront.render(kids[0]), args)
+        if k in ("UnaryExprOrTypeTraitExpr", "StringLiteral", "CharacterLiteral", "GNUNullExpr", "ImplicitValueInitExpr"):
+            return ("const", cfront.render(e))
+        return ("unk", str(k))
+
+    def callee_ctx(self, name, args, ctx):
+        f = self.fn(name)
+        c = _Ctx(f, dict(zip(f.params, args)), ctx.stack + (ctx.fn.name,))
+        self._keep.append(c)
+        return c
+
+    def returned(self, ctx):
+        out = []
+        for n in ctx.fn.cfg.nodes:
+            if n.kind == "return" and isinstance(n.c, dict):
+                kids = _ckids(n.c)
+                out.append(self.ev(kids[0], ctx, n.id) if kids else ("unk", "void"))
+        return _phi(out) if out else ("unk", "no return in %s" % ctx.fn.name)
+
+    # -- element stores -----------------------------------------------------------------------------------------------------
+    def collect(self, ctx):
+        for n in ctx.fn.cfg.nodes:
+            if not isinstance(n.c, dict) or n.kind == "case":
+                continue
+            for x in cfront.walk(n.c):
+                k = x.get("kind")
+                if (k == "BinaryOperator" and x.get("opcode") == "=") or k == "CompoundAssignOperator" \
+                        or (k == "UnaryOperator" and x.get("opcode") in ("++", "--")):
+                    l = _ckids(x)[0]
+                    while l.get("kind") in _C_PASS and _ckids(l):
+                        l = _ckids(l)[0]
+                    lk = _ckids(l)
+                    if l.get("kind") == "ArraySubscriptExpr" and len(lk) == 2:
+                        self.stores.append((self.ev(lk[0], ctx, n.id), self.ev(lk[1], ctx, n.id), x.get("line", 0)))
+                    elif l.get("kind") == "UnaryOperator" and l.get("opcode") == "*" and lk:
+                        self.stores.append((self.ev(lk[0], ctx, n.id), None, x.get("line", 0)))
+                elif k == "CallExpr":
+                    name = cfront.callee_name(x)
+                    if name in self.decls and name not in ctx.stack and name != ctx.fn.name and len(ctx.stack) < 6:
+                        args = tuple(self.ev(a, ctx, n.id) for a in _ckids(x)[1:])
+                        self.collect(self.callee_ctx(name, args, ctx))
+
+
+def _is_datum(t):
+    """a floating-point element of the data array (the first argument of the engine); which element is not this rule's business"""
+    return t[0] == "load" and t[1] in ("double", "float") and _R_DATA in _roles(t[2])
+
+
+def _show_q(t):
+    k = t[0]
+    if _is_datum(t):
+        return "datum"
+    if k == "arg":
+        return {_R_MIN: "min", _R_BSIZE: "binsize", _R_DATA: "data", _R_SORT: "sort", _R_HIST: "hist", _R_REV: "rev"}.get(t[1], "arg%s" % t[1])
+    if k in _ARITH or k == "mod":
+        return "(%s %s %s)" % (_show_q(t[2]), {"add": "+", "sub": "-", "mul": "*", "div": "/", "mod": "%"}[k], _show_q(t[3]))
+    if k == "neg":
+        return "-" + _show_q(t[2])
+    if k in ("f2i", "fcast", "i2f"):
+        return "(%s)%s" % (t[1], _show_q(t[2]))
+    if k == "const":
+        return str(t[1])
+    if k == "call":
+        return "%s(%s)" % (t[1], ", ".join(_show_q(a) for a in t[2]))
+    if k == "phi":
+        return " | ".join(_show_q(a) for a in t[1:])
+    if k == "load":
+        return "*(%s)" % _show_q(t[2])
+    if k == "member":
+        return "%s.%s" % (_show_q(t[2]), t[1])
+    return str(t[1]) if len(t) > 1 else k
+
+
+def _push_neg(t):
+    """IEEE negation is exact: -(a - b) is b - a, -(a / b) and a / -b are (-a) / b"""
+    k = t[0]
+    if k == "neg":
+        a = _push_neg(t[2])
+        if a[0] == "sub":
+            return ("sub", a[1], a[3], a[2])
+        if a[0] == "div":
+            return ("div", a[1], _push_neg(("neg", a[1], a[2])), a[3])
+        if a[0] == "neg":
+            return a[2]
+        return ("neg", t[1], a)
+    if k == "div":
+        a, b = _push_neg(t[2]), _push_neg(t[3])
+        if b[0] == "neg":
+            return ("div", t[1], _push_neg(("neg", t[1], a)), b[2])
+        return ("div", t[1], a, b)
+    if k in _ARITH:
+        return (k, t[1], _push_neg(t[2]), _push_neg(t[3]))
+    return t
+
+
+def _float_arith(t):
+    """a floating-point expression over the datum, the minimum, the bin size and constants only: everything the bin number may depend on
+    is in sight, so its floating-point structure can be judged"""
+    k = t[0]
+    if k in _ARITH:
+        return _float_arith(t[2]) and _float_arith(t[3])
+    if k in ("neg", "fcast"):
+        return _float_arith(t[2])
+    if k == "const":
+        return True
+    if k == "arg":
+        return t[1] in (_R_MIN, _R_BSIZE)
+    if k == "call":
+        return (t[1] in _TRUNCATING or t[1] in _ROUNDING or t[1] in ("fabs",)) and all(_float_arith(a) for a in t[2])
+    return _is_datum(t)
+
+
+def _single(t):
+    return any(s[0] in _ARITH + ("neg", "fcast", "load") and s[1] == "float" for s in _subtrees(t))
+
+
+def _judge_quotient(q):
+    """(verdict, text) for the floating-point value q whose truncation is used as the bin number"""
+    while q[0] == "call" and q[1] in _TRUNCATING and len(q[2]) == 1:
+        q = q[2][0]
+    q = _push_neg(q)
+    shown = _show_q(q)
+    if q[0] == "phi":
+        return None, "several definitions reach: " + shown
+    if q[0] == "div" and q[1] in ("double", "long double") and q[2][0] == "sub" and q[2][1] == q[1] and _is_datum(q[2][2]) and q[2][2][1] == "double" \
+            and q[2][3] == ("arg", _R_MIN) and q[3] == ("arg", _R_BSIZE):
+        return True, shown
+    if not _float_arith(q):
+        return None, "not an expression over datum, min and binsize only: " + shown
+    if _single(q):
+        return False, "%s goes through single precision" % shown
+    return False, "%s is not the one correctly rounded quotient (datum - min) / binsize" % shown
+
+
+def _judge_bin_number(idx):
+    """verdicts for an index into the array of counts"""
+    out = []
+    for a in _alts(idx):
+        if a[0] == "f2i":
+            out.append(_judge_quotient(a[2]))
+        elif a[0] == "call" and a[1] in _ROUNDING and all(_float_arith(x) for x in a[2]):
+            out.append((False, "%s rounds instead of truncating" % _show_q(a)))
+        else:
+            inner = _conversions(a)
+            if not inner:
+                out.append((None, "%s is not the conversion of a floating-point value" % _show_q(a)[:160]))
+            out.extend(_judge_quotient(s[2]) for s in inner)
+    return out
+
+
+_BIN_TEXT = ("the %s engine's bin number must be the truncated, correctly rounded double quotient (datum - min) / binsize (found: %s); only then is "
+             "the sorted position r of equal-occupancy binning counted in bin floor(r / nperbin) for every r and nperbin")
+
+
+def _c_engine_bin_number(chk):
+    key = "engine::c::bin-number-is-the-truncated-quotient"
+    try:
+        eng = _CEngine(cfront.load_tu(_C_TU))
+        name, call = eng.entry()
+        if name is None:
+            return chk.ob("R14.5", key, None, _C_FILE, _BIN_TEXT % ("C", "the function that parses the Python arguments was not found"))
+        where = "%s:%s" % (_C_FILE, eng.decls[name].get("line", 1))
+        chk.analysed_unit(name)
+        fmt = [a for a in _ckids(call)[1:] if cfront.strip(a).get("kind") == "StringLiteral"]
+        units = fmt and str(cfront.strip(fmt[0]).get("value", "")).strip('"').split(":")[0].split(";")[0]
+        if not fmt or any(u not in "Odf|$" for u in units) or [u for u in units if u in "Odf"][:4] != ["O", "d", "O", "d"]:
+            return chk.ob("R14.5", key, None, where, _BIN_TEXT % ("C", "argument format %r: data, min, sort index, binsize are not (object, double, object, double)" % (units,)))
+        root = _Ctx(eng.fn(name), {}, ())
+        eng.collect(root)
+    except (AnalysisError, RecursionError, KeyError, IndexError) as e:
+        return chk.ob("R14.5", key, None, _C_FILE, _BIN_TEXT % ("C", "the C source was not followed: %s" % (str(e)[:200],)))
+    res, msgs, line = [], [], None
+    for addr, idx, ln in eng.stores:
+        r = _roles(addr)
+        if _R_HIST in r and _R_REV not in r:
+            line = line or ln
+            for ok, m in _judge_bin_number(idx if idx is not None else addr):
+                res.append(ok)
+                if ok is not True:
+                    msgs.insert(0 if ok is False else len(msgs), m)
+    if not res:
+        res, msgs = [None], ["no store into the array of counts was recognised"]
+    if line:
+        where = "%s:%s" % (_C_FILE, line)
+    chk.ob("R14.5", key, _verdict(res), where, _BIN_TEXT % ("C", msgs[0] if msgs else "as found"))
+
+
+_PY_INT = ("int64", "int", "intp", "int_", "longlong", "i8")
+_PY_DOUBLE = ("float", "float64", "double", "f8", "asarray", "ascontiguousarray", "array", "atleast_1d")
+_PY_SINGLE = ("float32", "single", "float16", "half", "f4", "f2")
+
+
+def _py_type_name(e):
+    if isinstance(e, ast.Constant) and isinstance(e.value, str):
+        return e.value.lstrip("<>=")
+    return (dotted_name(e) or "?").split(".")[-1]
+
+
+def _py_rebound(fn_node, name, array=False):
+    """is the parameter given another value in the function (an in-place update `name op= ...` of an array keeps the object)"""
+    aug = {id(n.target) for n in ast.walk(fn_node) if isinstance(n, ast.AugAssign)} if array else ()
+    return any(isinstance(n, ast.Name) and n.id == name and isinstance(n.ctx, ast.Store) and id(n) not in aug for n in ast.walk(fn_node))
+
+
+def _py_tree(e, fn_node, roles, busy=frozenset()):
+    """the same trees for the Python fallback engine (flow-insensitive: every assignment of a name is an alternative; a selection of a
+    name's own elements assigned back to it adds no value)"""
+    rec = lambda x: _py_tree(x, fn_node, roles, busy)
+    if isinstance(e, ast.Constant) and isinstance(e.value, (int, float)) and not isinstance(e.value, bool):
+        return ("const", repr(e.value))
+    if isinstance(e, ast.Name):
+        if e.id in roles:
+            return ("unk", "%s is assigned" % e.id) if _py_rebound(fn_node, e.id, roles[e.id] == _R_HIST) else ("arg", roles[e.id])
+        stores = [n for n in ast.walk(fn_node) if isinstance(n, ast.Name) and n.id == e.id and isinstance(n.ctx, ast.Store)]
+        if e.id in busy:
+            return ("self", e.id)
+        plain = {id(n.targets[0]): n.value for n in ast.walk(fn_node)
+                 if isinstance(n, ast.Assign) and len(n.targets) == 1 and isinstance(n.targets[0], ast.Name) and n.targets[0].id == e.id}
+        if not stores or any(id(s) not in plain for s in stores):
+            return ("unk", "%s is not a plainly assigned local" % e.id)
+        alts = [_py_tree(v, fn_node, roles, busy | {e.id}) for v in plain.values()]
+        rest = [a for a in alts if a != ("self", e.id)]
+        return _phi(rest) if rest else ("unk", "%s depends on itself" % e.id)
+    if isinstance(e, ast.BinOp) and type(e.op) in (ast.Add, ast.Sub, ast.Mult, ast.Div):
+        return ({ast.Add: "add", ast.Sub: "sub", ast.Mult: "mul", ast.Div: "div"}[type(e.op)], "double", rec(e.left), rec(e.right))
+    if isinstance(e, ast.UnaryOp) and isinstance(e.op, ast.USub):
+        return ("neg", "double", rec(e.operand))
+    if isinstance(e, ast.UnaryOp) and isinstance(e.op, ast.UAdd):
+        return rec(e.operand)
+    if isinstance(e, ast.Subscript):
+        base = rec(e.value)
+        if base[0] == "self":
+            return base
+        return ("load", "double", ("add", "ptr", base, rec(e.slice)))
+    if isinstance(e, ast.Call):
+        nm = (dotted_name(e.func) or "").split(".")[-1]
+        if isinstance(e.func, ast.Attribute) and e.func.attr == "astype" and e.args:
+            a, nm = rec(e.func.value), _py_type_name(e.args[0])
+        elif len(e.args) == 1 and not e.keywords or nm in _PY_DOUBLE and e.args:
+            a = rec(e.args[0])
+        else:
+            return ("call", nm or "?", tuple(rec(x) for x in e.args))
+        if nm in _PY_INT:
+            return ("f2i", "int64", a)
+        if nm in _PY_DOUBLE:
+            return a
+        if nm in _PY_SINGLE:
+            return ("fcast", "float", a)
+        if nm in _TRUNCATING or nm in _ROUNDING or nm == "around":
+            return ("call", "round" if nm == "around" else nm, (a,))
+        return ("call", nm or "?", (a,))
+    return ("unk", type(e).__name__)
+
+
+def _py_count_sinks(repo, fi, roles, seen):
+    """[(verdict, text, statement)] for everything a Python engine function adds to the array of counts: element stores under a bin number,
+    whole-array updates from numpy.bincount of the bin numbers, numpy.add.at, and the same in the repo functions the array is handed on to"""
+    out = []
+    hist = {p for p, r in roles.items() if r == _R_HIST}
+    is_hist = lambda x: isinstance(x, ast.Name) and x.id in hist
+    for s in ast.walk(fi.node):
+        ts = s.targets if isinstance(s, ast.Assign) else [s.target] if isinstance(s, ast.AugAssign) else []
+        for t in ts:
+            whole = is_hist(t) or (isinstance(t, ast.Subscript) and is_hist(t.value) and isinstance(t.slice, ast.Slice))
+            if isinstance(t, ast.Subscript) and is_hist(t.value) and not whole:
+                out += [(ok, m, s) for ok, m in _judge_bin_number(_py_tree(t.slice, fi.node, roles))]
+            elif whole and isinstance(s, ast.AugAssign) or whole and isinstance(t, ast.Subscript):
+                v = _py_tree(s.value, fi.node, roles)
+                calls = [c for c in _subtrees(v) if c[0] == "call" and c[1] == "bincount" and c[2]]
+                if not calls:
+                    out.append((None, "the counts added are %s" % _show_q(v)[:160], s))
+                for c in calls:
+                    out += [(ok, m, s) for ok, m in _judge_bin_number(c[2][0])]
+        if isinstance(s, ast.Call):
+            d = dotted_name(s.func) or ""
+            if d.endswith("add.at") and len(s.args) >= 2 and is_hist(s.args[0]):
+                out += [(ok, m, s) for ok, m in _judge_bin_number(_py_tree(s.args[1], fi.node, roles))]
+                continue
+            q = repo.resolve_name(fi.module, d) if d and "." not in d else None
+            if q and repo.has(q) and q not in seen and any(is_hist(a) for a in list(s.args) + [k.value for k in s.keywords]):
+                callee = repo.func(q)
+                bound = dict(zip(callee.params, s.args))
+                bound.update({k.arg: k.value for k in s.keywords if k.arg})
+                sub = {p: roles[a.id] for p, a in bound.items() if isinstance(a, ast.Name) and a.id in roles
+                       and not _py_rebound(fi.node, a.id, roles[a.id] == _R_HIST)}
+                if {_R_DATA, _R_MIN, _R_BSIZE, _R_HIST} <= set(sub.values()):
+                    out += _py_count_sinks(repo, callee, sub, seen | {q})
+                else:
+                    out.append((None, "the array of counts is handed to %s, which was not followed" % callee.name, s))
+    return out
+
+
+def _py_engine_bin_number(chk, repo):
+    """the pure-Python engine the wrapper falls back on when the compiled routine is not available: the function called from the engine
+    wrapper with the arguments of the compiled routine"""
+    ms = Methods(repo)
+    if not repo.has(ms.engine):
+        return
+    dh = repo.func(ms.engine)
+    ccalls = [n for n in ast.walk(dh.node) if isinstance(n, ast.Call) and (dotted_name(n.func) or "").endswith(_ENGINE_ENTRY)]
+    cargs = [norm(a) for a in ccalls[0].args] if len(ccalls) == 1 and not ccalls[0].keywords else None
+    key = "engine::python::bin-number-is-the-truncated-quotient"
+    for n in ast.walk(dh.node):
+        if not isinstance(n, ast.Call) or n in ccalls:
+            continue
+        d = dotted_name(n.func)
+        q = repo.resolve_name(dh.module, d) if d and "." not in d else None
+        if not q or not repo.has(q):
+            continue
+        fi = repo.func(q)
+        bound = dict(zip(fi.params, n.args))
+        bound.update({k.arg: k.value for k in n.keywords if k.arg})
+        if cargs is not None:
+            roles = {p: cargs.index(norm(a)) for p, a in bound.items() if norm(a) in cargs}
+        else:
+            roles = {p: i for i, p in enumerate(fi.params[:6])}
+        if not {_R_DATA, _R_MIN, _R_BSIZE, _R_HIST} <= set(roles.values()):
+            continue
+        chk.analysed_unit(fi.qualname)
+        sinks = _py_count_sinks(repo, fi, roles, frozenset({q}))
+        where = fi.where()
+        if not sinks:
+            sinks = [(None, "no store into the array of counts was recognised", fi.node)]
+        bad = [x for x in sinks if x[0] is False] or [x for x in sinks if x[0] is None]
+        if bad:
+            where = "%s:%s" % (where.rsplit(":", 1)[0], getattr(bad[0][2], "lineno", where.rsplit(":", 1)[1]))
+        chk.ob("R14.5", key, _verdict([x[0] for x in sinks]), where, _BIN_TEXT % ("Python", bad[0][1] if bad else "as found"))
+        return
+
+
+def engine_bin_number(chk, repo):
+    _c_engine_bin_number(chk)
+    _py_engine_bin_number(chk, repo)
 
 
 # ---------------------------------------------------------------------------------------------------------------------------------
